@@ -99,9 +99,9 @@ struct MapStream : Family {
 	Plan generate(const std::string&, Rng& r, bool thorough) override {
 		Plan p;
 		swarmEnv(p, r, true, true);
-		static const char* BK[] = {"mem", "file", "fileslice", "sim"};
-		p.setenv("backend", BK[r.below(4)]);
-		p.setenv("wbackend", r.chance(1, 2) ? "dyn" : r.chance(1, 2) ? "file" : "sim");
+		static const char* BK[] = {"mem", "file", "fileslice", "sim", "path"};
+		p.setenv("backend", BK[r.below(5)]);
+		p.setenv("wbackend", r.chance(1, 2) ? "dyn" : r.chance(1, 3) ? "file" : r.chance(1, 2) ? "sim" : "path");
 		Line m = mkline("world", "map");
 		uint64_t lgw = r.chance(1, 2) ? r.range(5, thorough ? 10 : 8) : r.below(thorough ? 11 : 8);
 		uint64_t h = r.chance(1, 6) ? 0 : r.below(thorough ? 65 : 20);
@@ -133,10 +133,11 @@ struct MapStream : Family {
 		Out o = callLib(plan, [&] {
 			if (wb == "dyn") { Stream::DynamicMemoryWriter w; map.Write(w); auto rd = w.GetReader(); out.resize(static_cast<size_t>(rd.Length())); rd.Read(out.data(), out.size()); }
 			else if (wb == "sim") { SimWriter w; map.Write(w); out = w.data; }
+			else if (wb == "path") map.Write(std::string("_w/") + tag + ".map"); // the filename overload
 			else { { Stream::FileWriter w("_w/" + tag + ".map"); map.Write(w); } }
 		}, &what);
 		if (o != OkOut) ctx.fail(clause, "Map::Write failed: " + what);
-		if (wb == "file" && !disk::get("_w/" + tag + ".map", out)) ctx.fail(clause, "Map::Write(FileWriter) left no file");
+		if ((wb == "file" || wb == "path") && !disk::get("_w/" + tag + ".map", out)) ctx.fail(clause, "Map::Write to a file left no file");
 		return out;
 	}
 
@@ -158,7 +159,10 @@ struct MapStream : Family {
 		uint64_t posAfter = 0;
 		std::string what;
 		ReaderBox box;
-		Out o = callLib(plan, [&] { box = openBackend(backend, bytes, "in", plan.seed); map = Map::ReadMap(*box.rd); posAfter = box.rd->Position(); }, &what);
+		Out o = callLib(plan, [&] {
+			if (backend == "path") { disk::put("in.map", bytes); map = Map::ReadMap(std::string("in.map")); posAfter = consumed; return; } // filename overload: consumption not observable
+			box = openBackend(backend, bytes, "in", plan.seed); map = Map::ReadMap(*box.rd); posAfter = box.rd->Position();
+		}, &what);
 		if (o != OkOut) ctx.fail("C06.fields-equal", "a well-formed map (" + std::to_string(bytes.size()) + " bytes, backend " + backend + ") was not read: " + what);
 		if (posAfter != consumed) ctx.fail(m.trailing.empty() ? "C06.rewrite-equals-consumed" : "C06.trailing-ignored", "reader consumed " + std::to_string(posAfter) + " bytes; the map occupies " + std::to_string(consumed) + " (" + std::to_string(m.trailing.size()) + " trailing bytes follow)");
 		if (box.sim && box.sim->highWater != consumed) ctx.fail("C06.trailing-ignored", "reader touched bytes up to " + std::to_string(box.sim->highWater) + " of the source; the map ends at " + std::to_string(consumed));
@@ -174,7 +178,7 @@ struct MapStream : Family {
 		std::vector<uint8_t> want = ref::encodeMapCanonical(m);
 		if (w1 != want) ctx.fail("C06.rewrite-equals-consumed", "written bytes differ from the consumed bytes (saved-game flag normalised, group header word regenerated): " + firstDiff(w1, want));
 		Map map2;
-		o = callLib(plan, [&] { ReaderBox b2 = openBackend(backend == "sim" ? "mem" : backend, w1, "re", plan.seed ^ 9); map2 = Map::ReadMap(*b2.rd); }, &what);
+		o = callLib(plan, [&] { ReaderBox b2 = openBackend(backend == "sim" || backend == "path" ? "mem" : backend, w1, "re", plan.seed ^ 9); map2 = Map::ReadMap(*b2.rd); }, &what);
 		if (o != OkOut) ctx.fail("C06.fields-equal", "the map the library wrote was not read back: " + what);
 		ref::RMap canon = m;
 		canon.savedGame = m.savedGame ? 1 : 0;
